@@ -146,8 +146,32 @@ where
                         continue;
                     }
                     Poll::Pending => {
-                        self.state = State::OpeningNewStream { reply, connection };
-                        return Poll::Pending;
+                        // Too many streams are waiting for an acknowledgement. Keep driving the
+                        // connection while waiting: acknowledgements, dropped streams and inbound
+                        // frames are only processed by `poll_next_inbound`, so without this the
+                        // backlog would never shrink and the connection would stall for good.
+                        match connection.poll_next_inbound(cx) {
+                            Poll::Ready(maybe_stream) => {
+                                match maybe_stream.as_ref() {
+                                    Some(Err(error)) => {
+                                        tracing::debug!(target: LOG_TARGET, ?error, "Inbound stream error, closing connection");
+
+                                        let _ = reply.send(Err(ConnectionError::Closed));
+                                        self.state = State::Closing {
+                                            reply: None,
+                                            inner: Closing::DrainingControlCommands { connection },
+                                        };
+                                    }
+                                    _ => self.state = State::OpeningNewStream { reply, connection },
+                                }
+
+                                return Poll::Ready(maybe_stream);
+                            }
+                            Poll::Pending => {
+                                self.state = State::OpeningNewStream { reply, connection };
+                                return Poll::Pending;
+                            }
+                        }
                     }
                 },
                 State::Closing {
